@@ -352,8 +352,8 @@ impl TargetScheme for Operator {
                 exp.compile(buffer, ctx)?;
                 buffer.push_str(")");
             }
-            // We are not supposed to encounter explicit precendence in the AST
-            Operator::Precedence(_) => unreachable!(),
+            // The parser never leaves explicit precedence in the AST, but it can be built by hand
+            Operator::Precedence(exp) => exp.compile(buffer, ctx)?,
         }
 
         Ok(())
@@ -423,7 +423,7 @@ impl TargetScheme for Expression {
             Expression::Action(a) => a.compile(buffer, ctx),
             Expression::Operator(o) => o.as_ref().compile(buffer, ctx),
             Expression::Positional(p) => p.compile(buffer, ctx),
-            Expression::Global(_) => unreachable!(),
+            Expression::Global(g) => Err(CompileError::UnsupportedOption(format!("{g:?}"))),
         }
     }
 }
